@@ -302,7 +302,7 @@ func (g *concGen) concCmd(m *Model, task, i int) *Cmd {
 		case 2:
 			return &Cmd{Op: "IndexDrop", T: t0, Index: "gsi1"}
 		case 3:
-			return &Cmd{Op: "Native", Native: "activate"}
+			return &Cmd{Op: "Native", Native: pick(r, []string{"activate", "activate", "reset", "debug"})}
 		}
 	case "big-backfill":
 		// an index created over a table of more than 32 items while writers run
